@@ -1,5 +1,6 @@
 import MM.Lemmas.C32
 import MM.Gen.LockC32
+import MM.Gen.CallsC32
 
 /-!
   C32 — one live connection per peer; stale teardown never harms the live one.
@@ -156,6 +157,16 @@ theorem C32_lock_disconnect_atomic :
     acq "Manager.Disconnect" = some 1 ∧ allW "Manager.Disconnect" = true ∧ has "Manager.Disconnect" true = true ∧
     acq "Manager.DisconnectAll" = some 1 ∧ allW "Manager.DisconnectAll" = true ∧
     has "Manager.DisconnectAll" true = true := by decide
+
+/-- handleDisconnect decides "stale or not" under the lock; the model's teardown step acts on that decision at
+    once. In the source nothing stands between the last Unlock and the disconnect callback — no call (such as a wait
+    for the connection's frame handlers), no channel receive, no select (facts: tools/c32_calls.go). -/
+def afterLastUnlock (l : List String) : List String :=
+  (l.reverse.takeWhile (fun c => c != "m.mu.Unlock")).reverse
+
+theorem C32_calls_decision_then_callback :
+    (afterLastUnlock MM.Gen.CallsC32.handleDisconnect).head? = some "m.cfg.OnPeerDisconnect" ∧
+    MM.Gen.CallsC32.handleDisconnect.any (fun c => c == "<-chan" || c == "select") = false := by decide
 
 end LockTie
 
